@@ -16,7 +16,7 @@ WEIGHTS = [("hostile", 3), ("multi", 3), ("event", 2), ("fastlat", 2)]
 
 
 def plan(tier, seed):
-    return _sim.plan_profiles(tier, seed, WEIGHTS, 1500, 50000)
+    return _sim.plan_profiles(tier, seed, WEIGHTS, 4000, 60000)
 
 
 def build(desc):
